@@ -1829,7 +1829,7 @@ static void add_func_header(E_Token type, file_mem &fm)
          int found_brace = 0;                                 // Set if a close brace is found before a newline
 
          while (  ref->IsNot(CT_NEWLINE)
-               && (ref = ref->GetNext())) // TODO: is the assignment of ref wanted here?, better move it to the loop
+               && (ref = ref->GetNext())->IsNotNullChunk()) // TODO: is the assignment of ref wanted here?, better move it to the loop
          {
             if (ref->Is(CT_BRACE_CLOSE))
             {
